@@ -6,5 +6,6 @@ CONSTANTS
   Paths = {"a", "b"}
   DEV_GlobalPrecision = FALSE
   DEV_AccumulatingRoot = FALSE
+    DEV_NoTruncate = FALSE
 VIEW View
 ACTION_CONSTRAINT Emit
